@@ -442,7 +442,7 @@ func (rn *runner) runCluster(c *Case) (*Outcome, error) {
 // rows, then whatever is left of every partition, then the timer.
 // earlyMask: bit p set = partition p noticed the leader's stop before the end of its script
 // (it may as well have run ahead and finished — or failed — before the stop was set).
-func clusterEvents(c *Case, arrival []int, earlyMask int) []interface{} {
+func clusterEvents(c *Case, arrival []int, earlyMask int, start int) []interface{} {
 	evs := []interface{}{}
 	for _, p := range arrival {
 		evs = append(evs, map[string]interface{}{"e": "msg", "p": p, "early": false})
@@ -450,7 +450,9 @@ func clusterEvents(c *Case, arrival []int, earlyMask int) []interface{} {
 	// the call that ended the caller's own participation (failAt / stopAt) is not among the
 	// delivered rows: it came from some partition that still had rows; try them in order
 	for round := 0; round < 12; round++ {
-		for p := 0; p < nParts; p++ {
+		for i := 0; i < nParts; i++ {
+			// start: which partition's row the caller's own stop / error fell on is not observable
+			p := (start + i) % nParts
 			evs = append(evs, map[string]interface{}{"e": "msg", "p": p, "early": earlyMask&(1<<uint(p)) != 0})
 		}
 	}
@@ -464,7 +466,7 @@ func (rn *runner) modelForCluster(c *Case, impl *Outcome) (*Outcome, error) {
 	if c.Fault.Kind == "stopAt" {
 		mask = 1<<nParts - 1
 	}
-	return rn.modelForClusterMask(c, impl, mask)
+	return rn.modelForClusterMask(c, impl, mask, 0)
 }
 
 // clusterAlternatives: after the caller's stop every partition either notices it or has run
@@ -474,15 +476,17 @@ func (rn *runner) clusterAlternatives(c *Case, impl *Outcome) []*Outcome {
 		return nil
 	}
 	var out []*Outcome
-	for mask := 0; mask < 1<<nParts-1; mask++ {
-		if o, err := rn.modelForClusterMask(c, impl, mask); err == nil {
-			out = append(out, o)
+	for start := 0; start < nParts; start++ {
+		for mask := 0; mask < 1<<nParts; mask++ {
+			if o, err := rn.modelForClusterMask(c, impl, mask, start); err == nil {
+				out = append(out, o)
+			}
 		}
 	}
 	return out
 }
 
-func (rn *runner) modelForClusterMask(c *Case, impl *Outcome, earlyMask int) (*Outcome, error) {
+func (rn *runner) modelForClusterMask(c *Case, impl *Outcome, earlyMask int, start int) (*Outcome, error) {
 	var obs clusterObs
 	json.Unmarshal([]byte(impl.Detail), &obs)
 	cp := normalise(c)
@@ -495,7 +499,7 @@ func (rn *runner) modelForClusterMask(c *Case, impl *Outcome, earlyMask int) (*O
 				if unflat || hasOp(cp.Plan, "sort") || hasOp(cp.Plan, "subq") {
 					arr = nil // the arrival order is not observable (and does not matter)
 				}
-				p["events"] = clusterEvents(c, arr, earlyMask)
+				p["events"] = clusterEvents(c, arr, earlyMask, start)
 			}
 			if p["op"] == "subq" {
 				set(jPlan(p, "sub"))
